@@ -811,7 +811,6 @@ theorem applyDirect_ok {x : XContrast} {t : DummiesType} {dummies : List (List â
   | error err => simp [hr] at h
   | ok o' =>
     simp only [hr] at h
-    split_ifs at h
     cases ha : xApply x dummies levels reduced (o' == "sparse") with
     | error err => simp [ha] at h
     | ok e' =>
